@@ -25,7 +25,11 @@ RULE = ("write histories on a fresh temp directory: creation time (aligned / una
         "(same second .. past midnight) with other, mostly smaller, limits, followed by writes with log.files after each; queries FindByTimeAndResource / FindFromTimeWithMaxLines interleaved "
         "with the writes and at the end, on two long-lived searchers (position cache) and on fresh ones, begin/end on written seconds +-1 and "
         "unaligned; then a crash phase: quick = every cut offset inside the last 3 lines of the last data file and the last 3 entries of its "
-        "index, thorough = every byte offset of both files, each followed by queries; fixed slices inside each known-finding region. "
+        "index, thorough = every byte offset of both files, each followed by queries; after a third of the crash phases an odd phase: the last idx file removed (log.rmidx), then garbage appended to the last data / idx file "
+        "(log.raw: empty lines, lines with too few fields, every column non-numeric / overflowing / signed, CR endings, no final LF, index "
+        "entries with arbitrary seconds and offsets, torn entries) - outside the property, spec `?`, model must agree; 15% of the cases with the pid "
+        "suffix in the file names, 12% with foreign files / directories in the log directory (log.touch / log.mkdir), invalid limits, invalid "
+        "searcher arguments; fixed slices inside each known-finding region. "
         "non-trivial = at least one roll and one non-empty result; distinct by (limits, op-kind sequence, number of cuts)")
 
 B0 = 1_900_000_000_000
@@ -111,6 +115,87 @@ def rand_query(rng, sim, sid, now_sec):
     return f"log.from {sid} {b} {rng.choice([0, 1, 2, 3, 5, 8, 100, 100000])}"
 
 
+FOREIGN = ["other.txt", "v-app-metrics.log.lck", "zzz-metrics.log.2030-03-17", "v-app-metrics.log", "README", "v-app-metrics.logx"]
+FOREIGN_DIRS = ["sub", "v-app-metrics.log.d"]
+
+
+def be8(n):
+    return "%016x" % n
+
+
+def odd_phase(rng, sim, ops):
+    """after the crash: a missing idx file (still inside the property), then corruption other than truncation - garbage
+    lines / index entries appended to the last files (outside the property: the spec says `?`, the model must still agree)"""
+    ts = sim.latest * 1000
+    total = sum(l for l, _ in sim.lines)
+    secs = sim.secs
+    n = [0]
+
+    def queries(k):
+        out = []
+        for _ in range(k):
+            b = rng.choice(secs + [secs[-1], secs[-1] + 1]) * 1000
+            sid = rng.choice(["s1", f"o{len(ops)}-{n[0]}"])
+            n[0] += 1
+            if rng.random() < 0.7:
+                out.append(f"log.find {sid} {b} {10 ** 14} " + rng.choice(["*", "*", "g", "a"]))
+            else:
+                out.append(f"log.from {sid} {b} {rng.choice([1, 3, 100])}")
+        return out
+
+    # both files complete again (an index that is not a whole number of entries would misalign the appended entries: arbitrary
+    # offsets, beyond 2^63 or the file system's limit, are not modelled)
+    ops += [f"log.cut data {total}", f"log.cut idx {sim.nidx * 16}"]
+    gone = False
+    if rng.random() < 0.5:
+        ops.append("log.rmidx")
+        ops += queries(2)
+        ops.append("log.files")
+        gone = True
+        if rng.random() < 0.5:
+            ops.append(f"log.cut idx {sim.nidx * 16}")          # the index is back
+            gone = False
+    torn = False
+    if not gone and sim.nidx >= 1 and rng.random() < 0.4:
+        # the cached index position is overwritten by another entry (isPositionInTimeFor must notice: it re-reads the second)
+        last = sim.latest
+        ops.append(f"log.find s1 {last * 1000} {10 ** 14} *")
+        ops.append(f"log.cut idx {(sim.nidx - 1) * 16}")
+        ops.append("log.raw idx " + be8(last + rng.choice([1, 2, 5])) + be8(rng.choice([0, total // 2, total])))
+        ops.append(f"log.find s1 {(last + rng.choice([0, 1, 2, 6])) * 1000} {10 ** 14} *")
+        ops.append(f"log.find s1 {last * 1000} {10 ** 14} *")
+    lines = ["", "abc", "1|2|3|4|5|6|7|8", f"{ts}|t|g|1|2|3|4|5", f"x{ts}|t|g|1|2|3|4|5", f"{ts}|t|g|x|2|3|4|5", f"{ts}|t|g|1|x|3|4|5",
+             f"{ts}|t|g|1|2|x|4|5", f"{ts}|t|g|1|2|3|x|5", f"{ts}|t|g|1|2|3|4|x", f"{ts}|t|g|1|2|3|4|5|x", f"{ts}|t|g|1|2|3|4|5|6|4294967296",
+             f"{ts}|t|g|1|2|3|4|5|6|7|2147483648", f"{ts}|t|g|1|2|3|4|5|6|7|-2147483649", f"{ts}|t|g|1|2|3|4|5|6|7|+5", f"{ts}|t|g|1|2|3|4|5|6|7|-0",
+             f"{ts}|t|g|1|2|3|4|5|6|7|-", f"{ts}|t|g|+1|2|3|4|5", f"{ts}|t|g|18446744073709551616|2|3|4|5",
+             f"{ts}|t|g|18446744073709551615|2|3|4|5|6|7|8|9|10|11", f"{ts + 1000}|t|g|1|2|3|4|5", f"{ts}|t|g|1|2|3|4|5\r", "\r",
+             f"{ts}|t||1|2|3|4|5", f"{ts}|t|g|01|002|3|4|5", f"{ts}|t|g|1|2|3|4|", f"{ts}|t|g|1|2|3|4"]
+    for _ in range(rng.randint(1, 4)):
+        chunk = ""
+        for l in rng.sample(lines, rng.randint(1, 5)):
+            chunk += l.replace("\\r", "\r") + "\n"
+        if rng.random() < 0.3:
+            chunk = chunk[:-1]                                   # no LF at the end
+            if rng.random() < 0.3:
+                chunk += "\r"
+        if not chunk:
+            chunk = "\n"
+        ops.append("log.raw data " + chunk.encode().hex())
+        ops += queries(rng.randint(1, 3))
+        if rng.random() < 0.5 and not gone and not torn:
+            ent = ""
+            for _ in range(rng.randint(1, 3)):
+                sec = rng.choice([sim.latest, sim.latest + 1, sim.latest + 5, 0, 2 ** 64 - 1, secs[0]])
+                off = rng.choice([0, total // 2, total, total + 100, 2 ** 40])
+                ent += be8(sec) + be8(off)
+            if rng.random() < 0.4:
+                ent += "".join("%02x" % rng.randrange(256) for _ in range(rng.randint(1, 15)))
+                torn = True                                      # nothing may follow a torn entry
+            ops.append("log.raw idx " + ent)
+            ops += queries(rng.randint(1, 3))
+    ops.append("log.files")
+
+
 def gen_case(rng, cid, tier, forced=None):
     kind = forced or rng.choice(["plain", "plain", "cut", "cut", "cut", "first", "cache", "orphan", "torn", "reopen", "reopen"])
     r = rng.random()
@@ -128,7 +213,13 @@ def gen_case(rng, cid, tier, forced=None):
         max_size = rng.choice([300, 1000, 100000])
     if kind == "reopen":
         max_size, max_files = rng.choice([1, 60, 110, 200]), rng.choice([3, 4, 6, 6])
-    ops = [f"clock {t0}", f"log.new {max_size} {max_files}"]
+    pid = rng.random() < 0.15
+    ops = [f"clock {t0}", f"log.new {max_size} {max_files}" + (" pid" if pid else "")]
+    if rng.random() < 0.03:
+        ops.insert(1, f"log.new {rng.choice([0, 5])} {rng.choice([0, 0, 3])}".replace("log.new 5 3", "log.new 0 3"))   # invalid limits: err
+    if rng.random() < 0.03:
+        ops.append("log.badsearcher")
+    foreign = rng.random() < 0.12
     sim = Sim(t0, max_size, max_files)
     ts = t0
     nq = 0
@@ -181,6 +272,9 @@ def gen_case(rng, cid, tier, forced=None):
             ops.append(rand_query(rng, sim, rng.choice(["s1", "s2", f"f{nq}"]), ts // 1000))
             nq += 1
         if rng.random() < 0.05:
+            ops.append("log.files")
+        if foreign and rng.random() < 0.3:
+            ops.append(rng.choice([f"log.touch {rng.choice(FOREIGN)}", f"log.touch {rng.choice(FOREIGN)}", f"log.mkdir {rng.choice(FOREIGN_DIRS)}"]))
             ops.append("log.files")
     ops.append("log.files")
     nfinal = rng.randint(3, 8)
@@ -240,6 +334,8 @@ def gen_case(rng, cid, tier, forced=None):
                 ops.append(f"log.cut idx {rng.choice(idx_cuts)}")
                 ops += cut_queries("x", len(ops))
         ops.append("log.files")
+        if rng.random() < 0.35:
+            odd_phase(rng, sim, ops)
         if rng.random() < 0.1:
             ops.append(f"log.write {ts + 1000} 1 a:1:0:0:0:0:0:0:0")      # writer is dead: both sides say bad-op
     ops.append("log.end")
